@@ -189,14 +189,23 @@ func (m *Mesh) NextUUID() uint64 { return m.linkID.Add(1) }
 // remote: the returned End is the harness' end (write crafted frames to it);
 // nobody reads what the node sends, it is only recorded on the tap d.AB.
 func (m *Mesh) Attach(a int, remote peer.ID, nodeInitiates bool) (*Duplex, *End) {
-	d := NewDuplex(&m.Clk, fmt.Sprintf("%d-h", a), a, -1)
+	return m.AttachLink(a, remote, m.NextUUID(), nodeInitiates)
+}
+
+// AttachLink is Attach with a chosen link uuid: calling it again with the
+// uuid (and remote) of an existing harness-driven endpoint REPLACES the stream
+// of that (peer, link) tuple, as a pubsub controller does when the stream of a
+// link is re-opened. The old Duplex stays in the mesh's pipe list (its taps and
+// gates remain usable).
+func (m *Mesh) AttachLink(a int, remote peer.ID, uuid uint64, nodeInitiates bool) (*Duplex, *End) {
+	d := NewDuplex(&m.Clk, fmt.Sprintf("%d-h#%d", a, uuid), a, -1)
 	d.AB.SetSink()
 	m.mu.Lock()
 	m.dups = append(m.dups, d)
 	m.pipes = append(m.pipes, d.AB, d.BA)
 	m.mu.Unlock()
 	na := m.Nodes[a]
-	la := &FakeLink{UUID: m.NextUUID(), Local: na.Ident.ID, Remote: remote}
+	la := &FakeLink{UUID: uuid, Local: na.Ident.ID, Remote: remote}
 	na.FS.AddPeerStream(pubsub.NewPeerLinkTuple(la), nodeInitiates,
 		&FakeMStream{Strm: d.EndA(), Proto: floodsub.FloodSubID, Peer: remote, Lnk: la})
 	return d, d.EndB()
